@@ -134,7 +134,7 @@ class Runner:
         env = {"LC_ALL": "C", "PATH": os.environ.get("PATH", "/usr/bin:/bin"), "HOME": d, "TMPDIR": d}
         with open(os.path.join(d, "out.bin"), "wb") as out, open(os.path.join(d, "err.txt"), "wb") as err:
             try:
-                p = subprocess.run(["timeout", "-k", "2", "30"] + cmd, cwd=d, env=env, stdin=subprocess.DEVNULL,
+                p = subprocess.run(["timeout", "-k", "2", "6"] + cmd, cwd=d, env=env, stdin=subprocess.DEVNULL,
                                    stdout=out, stderr=err, timeout=60)
                 rc = p.returncode
             except subprocess.TimeoutExpired:
@@ -198,7 +198,7 @@ def events_of(case, res, expect_sizes):
 ERRS = {"read": ["EIO", "EINTR"], "write": ["ENOSPC", "EIO", "EINTR"], "lseek": ["EINVAL"], "fsync": ["EIO"],
         "close": ["EIO", "EINTR"], "openat": ["EACCES", "EMFILE"], "unlink": ["EPERM", "EIO"], "fchmod": ["EPERM"],
         "fchown": ["EPERM"], "utimensat": ["EPERM"], "newfstatat": ["EIO"], "fcntl": ["EINVAL"], "fadvise64": ["EINVAL"]}
-QUICK_ERR = {"read": ["EIO"], "write": ["ENOSPC"], "close": ["EIO"], "openat": ["EACCES"], "unlink": ["EPERM"]}
+QUICK_ERR = {"read": ["EIO", "EINTR"], "write": ["ENOSPC", "EINTR"], "close": ["EIO"], "openat": ["EACCES"], "unlink": ["EPERM"]}
 SIGS = ["TERM", "INT", "HUP", "PIPE"]
 LAST_EVENTS = ("SigDfl", "Raise", "Exit")
 
@@ -229,9 +229,11 @@ def perturbations(mode, calls, rng, level):
     nread = len([1 for n, k, e in rel if e == "Read"]); nwrite = len([1 for n, k, e in rel if e == "Write"])
     cur = 0
     per_file_reads = {}
+    fileof = []
     for n, k, e in rel:
         if e == "OpenSrc":
             cur += 1
+        fileof.append(cur)
         if e in ("Read", "Write"):
             per_file_reads.setdefault((cur, e), 0)
             per_file_reads[(cur, e)] += 1
@@ -251,21 +253,21 @@ def perturbations(mode, calls, rng, level):
             out.append(Case(mode, "swap", shim="replace:close:@%s:1:@%s" % (t, t), label="swap-dst@close-dst(f%d)" % f))
             out.append(Case(mode, "swap", shim="replace:fsync:@%s:1:@%s" % (t, t), label="swap-dst@fsync(f%d)" % f))
             # swap combined with a failure, so that the clean-up path meets somebody else's file
-            wk = [k for n, k, e in rel if e == "Write"]
+            wk = [k for (n, k, e), ff in zip(rel, fileof) if e == "Write" and ff == f]
             if wk:
                 out.append(Case(mode, "swap+err", ["write:error=ENOSPC:when=%d" % wk[-1]],
                                 shim="replace:close:@%s:1:@%s" % (t, t), label="swap-dst@close-dst+ENOSPC(f%d)" % f))
                 out.append(Case(mode, "swap+err", ["write:error=ENOSPC:when=%d" % wk[-1]],
                                 shim="replace:lstat:@%s:1:@%s" % (t, t), label="swap-dst@lstat-dst+ENOSPC(f%d)" % f))
-            ck = [k for n, k, e in rel if e == "CloseDst"]
+            ck = [k for (n, k, e), ff in zip(rel, fileof) if e == "CloseDst" and ff == f]
             if ck:
                 out.append(Case(mode, "swap+err", ["close:error=EIO:when=%d" % ck[0]],
                                 shim="replace:lstat:@%s:1:@%s" % (t, t), label="swap-dst@lstat-dst+closeEIO(f%d)" % f))
     if level == 0:
         rng.shuffle(out)
-        keep = [c for c in out if c.kind in ("swap", "swap+err", "short", "sig+eintr")][:8]
+        keep = [c for c in out if c.kind in ("swap", "swap+err", "short", "sig+eintr")][:12]
         rest = [c for c in out if c not in keep]
-        out = keep + rest[:22]
+        out = keep + rest[:38]
     return out
 
 # ------------------------------------------------------------------ driver
@@ -307,6 +309,8 @@ def run_v(ctx):
     shim = build_shim()
     R = Runner(ctx, cli["xz"], shim)
     allmodes = modes(ctx.quick)
+    if os.environ.get("C17_MODES"):          # development aid
+        allmodes = [m for m in allmodes if m.name in os.environ["C17_MODES"].split(",")]
     hist = []        # (label, events)
     seen = set()
     stats = dict(runs=0, missed=0, by_kind={})
@@ -321,9 +325,17 @@ def run_v(ctx):
         if "damaged" in res["fs"][0]:
             ctx.violation("fs:source-damaged:%s" % case.mode.name, "source content changed: %s %s" % (case.label, res["fs"]),
                           dict(kind="run", mode=case.mode.name, pert=case.label))
-        if res["rc"] == 124:
-            ctx.violation("run:timeout:%s:%s" % (case.mode.name, case.kind), "xz did not terminate: " + case.label,
-                          dict(kind="run", mode=case.mode.name, pert=case.label, inject=case.inject, shim=case.shim))
+        if res["rc"] in (124, 137) and case.kind != "kill":
+            what = case.label.split("(")[-1].replace(")=", "-") if case.kind == "err" else case.kind
+            hkey = "run:hang:%s:%s" % (case.mode.name, what)
+            if hkey in seen:
+                return
+            seen.add(hkey)
+            ctx.violation(hkey,
+                          "xz did not terminate within 6 s (busy loop or blocked): %s; strace -e inject=%s" %
+                          (case.label, case.inject),
+                          dict(kind="run", mode=case.mode.name, pert=case.label, inject=case.inject, shim=case.shim,
+                               flags=case.mode.flags))
             return
         key = json.dumps(ev[1:], sort_keys=True) + json.dumps(ev[0]["cfg"], sort_keys=True)
         ctx.case(key=(case.mode.name, case.label, key))
@@ -368,7 +380,7 @@ def run_v(ctx):
         shutil.rmtree(base["dir"], ignore_errors=True)
         record(Case(mode, "none", label="fault-free"), base, sizes)
         ev, pr = events_of(Case(mode), base, sizes)
-        level = 2 if not ctx.quick else (1 if mi < 2 else 0)
+        level = 2 if not ctx.quick else (1 if mode.name in ("c", "d-sparse-T4", "c-force-pre", "c-2files", "d-files-list") else 0)
         cases = perturbations(mode, pr["calls"], ctx.rng, level)
         ctx.log("mode %-14s baseline: rc=%s events=%d fs=%s -> %d perturbed runs" %
                 (mode.name, base["rc"], len(ev), base["fs"], len(cases)))
